@@ -86,6 +86,19 @@ def r2_depth(ctx):
             rs = [c for p in ctx.paths(e) for c in calls(p) if name_is(c[2], "resize")]
             ok = bool(rs) and all(is_self_field(c[3][2], "indent_char") and strip_wrappers(c[3][1])[0] == "arg" for c in rs)
             ctx.ob("R2", "Indentation::ensure", ok, "the buffer is extended with indent_char only", config=cfg)
+            # the guard compares the *length* of the buffer (what current()/additional() slice), not its capacity
+            for p in ctx.paths(e):
+                if ends(p) != "ret":
+                    continue
+                resized = any(name_is(c[2], "resize") for c in calls(p))
+                g = [x for x in p if x[0] == "switch" and x[2][0] == "bin" and x[2][1] in ("Lt", "Le", "Gt", "Ge")]
+                okg = False
+                if g:
+                    t = g[0][2]
+                    a, b2 = (t[2], t[3]) if t[1] in ("Lt", "Le") else (t[3], t[2])
+                    okg = call_is(a, "Vec::len") and is_self_field(a[3][0], "indents") and strip_wrappers(b2)[0] == "arg" and t[1] in ("Lt", "Gt") and ((g[0][3] != 0) == resized)
+                ctx.ob("R2", "Indentation::ensure:guard[%s]" % ("resize" if resized else "keep"), okg,
+                       "ensure(new_len) must resize exactly when indents.len() < new_len: current()/additional() slice indents[..len] and would panic if only the capacity were large enough (guard: %s)" % (sym.show(g[0][2], 3) if g else None), config=cfg)
         n = ctx.body(F, "writer::Indentation::new", "R2")
         if n is not None:
             ok = False
